@@ -174,6 +174,10 @@ fn typed_constant_cases() -> Vec<Case> {
         ("f32", Inst::new("TypeFloat", None, Some(10), vec![Arg::Lit32(32)]), 1),
         ("f64", Inst::new("TypeFloat", None, Some(10), vec![Arg::Lit32(64)]), 2),
         ("bool", Inst::new("TypeBool", None, Some(10), vec![]), 1),
+        // float types that carry the optional FP-encoding operand: still floats of that width
+        ("f16enc", Inst::new("TypeFloat", None, Some(10), vec![Arg::Lit32(16), Arg::Enum("FPEncoding", 0x7FFF_FFFF)]), 1),
+        ("f32enc", Inst::new("TypeFloat", None, Some(10), vec![Arg::Lit32(32), Arg::Enum("FPEncoding", 0x7FFF_FFFF)]), 1),
+        ("f64enc", Inst::new("TypeFloat", None, Some(10), vec![Arg::Lit32(64), Arg::Enum("FPEncoding", 0x7FFF_FFFF)]), 2),
     ];
     let p32: Vec<u32> = vec![
         0, 1, 2, 0x7F, 0x80, 0xFF, 0x7FFF, 0x8000, 0xFFFF, 0x7FFF_FFFF, 0x8000_0000, 0xFFFF_FFFF, 0x3F80_0000, 0xC000_0000, 0x7F80_0000, 0xFF80_0000, 0x7FC0_0000,
